@@ -106,6 +106,7 @@ structure Params where
   v : Variant
   shape : Shape
   ttl : Nat          -- effective record lifetime (ms), see `effTTL`
+  rsTtl : Nat := 90000   -- lifetime of the cloud runtime state (`constants.TTLClientState`, ms)
   deriving Repr
 
 /-- `NewStore`: `ttl == 0` ⇒ 5 minutes. -/
@@ -235,6 +236,9 @@ structure St where
   down : List Nat := []      -- nodes whose session manager was shut down (their CrossNodePool is closed)
   -- lookups in flight: (asking node, client) ↦ what the first storage round trip (the index read) returned
   pending : FMap (Nat × Nat) (Option Conn) := FMap.empty
+  -- the cloud side of the same question: `tunnox:runtime:client:state:<client>` ↦ (NodeID, ConnID, deadline),
+  -- written by `client.Service` (a key family disjoint from the two of `connstate`, hence kept apart)
+  rstore : FMap Nat (Nat × Conn × Nat) := FMap.empty
 
 def NodeSt.addConn (n : NodeSt) (c : Conn) : NodeSt := { n with conns := add c n.conns, streams := c :: n.streams }
 def NodeSt.dropConn (n : NodeSt) (c : Conn) : NodeSt := { n with conns := rm c n.conns }
@@ -246,7 +250,7 @@ def NodeSt.addAuth (n : NodeSt) (c : Conn) : NodeSt := { n with ctrl := add c n.
 /-- After `onClose`: nothing registered any more, every stream closed (the stream table stays). -/
 def NodeSt.closed (n : NodeSt) : NodeSt := ⟨n.streams, [], [], [], n.conns ++ n.dead, FMap.empty⟩
 
-def St.init : St := ⟨0, FMap.empty, fun _ => NodeSt.empty, [], FMap.empty⟩
+def St.init : St := ⟨0, FMap.empty, fun _ => NodeSt.empty, [], FMap.empty, FMap.empty⟩
 
 def upd (f : Nat → NodeSt) (j : Nat) (n : NodeSt) : Nat → NodeSt := fun i => if i = j then n else f i
 
@@ -344,6 +348,7 @@ def kickOld (st : St) (c : Conn) : St :=
 
 /-- `SessionManager.onClose`: registry and connMap emptied, every stream closed.  No store access. -/
 def shutdownNode (st : St) (n : Nat) : St :=
+  if n ∈ st.down then st else   -- `Close` is idempotent: `onClose` runs once
   { st with nodes := upd st.nodes n (NodeSt.closed (st.nodes n)), down := n :: st.down }
 
 /-- First round trip of `FindClientNode`: the connection id the index names now (`none`: invalid id / no entry —
@@ -374,7 +379,7 @@ def lookupAnswer (P : Params) (st : St) (j x : Nat) : Look :=
     | .badType => .badType
   | _ => .notFound
 
-def step (P : Params) (st : St) : Ev → St
+def stepCore (P : Params) (st : St) : Ev → St
   | .open c => createConnection st c
   | .hs c ok => handleHandshake P st c true ok
   | .hsTunnel c ok => handleHandshake P st c false ok
@@ -388,6 +393,56 @@ def step (P : Params) (st : St) : Ev → St
   | .lookBegin j x => lookupBegin st j x
   | .lookEnd j x => lookupEnd st j x
   | .tick dt => { st with now := st.now + dt }
+
+/-! ## The cloud runtime state (`internal/cloud/services/client/state.go`, `repos/client_state_repository.go`)
+
+`ConnectClient` (auth handler, after it accepted a control handshake), `EnsureClientOnline` (every heartbeat of an
+identified control connection), `DisconnectClientIfMatch` (`RemoveControlConnection` / the sweep callback, for an
+authenticated connection the registry still held); read by `GetState` / `GetClientNodeID` / `IsClientOnNode`. -/
+
+abbrev RStore := FMap Nat (Nat × Conn × Nat)
+
+/-- `stateRepo.GetState`: node and connection the runtime state names now. -/
+def rsGet (now : Nat) (rs : RStore) (x : Nat) : Option (Nat × Conn) :=
+  match FMap.lookup rs x with
+  | some v => if now ≤ v.2.2 then some (v.1, v.2.1) else none
+  | none => none
+
+/-- `ConnectClient`: a fresh state naming THIS node and THIS connection, whatever was there. -/
+def connectClient (P : Params) (now : Nat) (rs : RStore) (x n : Nat) (c : Conn) : RStore :=
+  FMap.insert rs x (n, c, now + P.rsTtl)
+
+/-- `EnsureClientOnline`: touch the state that exists, rebuild it (for this connection) when it is gone. -/
+def ensureClientOnline (P : Params) (now : Nat) (rs : RStore) (x n : Nat) (c : Conn) : RStore :=
+  match rsGet now rs x with
+  | some v => FMap.insert rs x (v.1, v.2, now + P.rsTtl)
+  | none => FMap.insert rs x (n, c, now + P.rsTtl)
+
+/-- `DisconnectClientIfMatch`. -/
+def disconnectIfMatch (now : Nat) (rs : RStore) (x n : Nat) (c : Conn) : RStore :=
+  if rsGet now rs x = some (n, c) then FMap.erase rs x else rs
+
+/-- The runtime-state effect of one event, decided on the state BEFORE the event. -/
+def rsStep (P : Params) (st : St) : Ev → RStore
+  -- the auth handler accepted a control handshake of a known client on a connection the node has:
+  -- `ConnectClient` runs before the response is sent (so also when sending fails on a closed stream)
+  | .hs c ok =>
+    if ok && (decide (c ∈ (st.nodes c.node).ctrl) || decide (c ∈ (st.nodes c.node).conns)) && decide (c.client > 0) then
+      connectClient P st.now st.rstore c.client c.node c
+    else st.rstore
+  | .hb c =>
+    if decide (c ∈ (st.nodes c.node).ctrl) && decide (c ∈ (st.nodes c.node).authed) && decide (c.client > 0) then
+      ensureClientOnline P st.now st.rstore c.client c.node c
+    else st.rstore
+  -- every closing path: only for an authenticated connection the registry still holds
+  -- (`RemoveControlConnection` inside `CloseConnection`; the sweep's callback does it itself)
+  | .close c _ =>
+    if decide (c ∈ (st.nodes c.node).ctrl) && decide (c ∈ (st.nodes c.node).authed) && decide (c.client > 0) then
+      disconnectIfMatch st.now st.rstore c.client c.node c
+    else st.rstore
+  | _ => st.rstore
+
+def step (P : Params) (st : St) (e : Ev) : St := { stepCore P st e with rstore := rsStep P st e }
 
 /-- What the entry point reported: `CreateConnection` / `HandlePacket` returned nil; for the closes: this call
 closed the connection (the Disconnect command and the sweep ignore a connection the registry does not hold);
@@ -431,14 +486,14 @@ def routeUp (P : Params) (st : St) (j x : Nat) : Route :=
 def route (P : Params) (st : St) (j x : Nat) : Route :=
   if j ∈ st.down then .down else routeUp P st j x
 
-/-- What every node sees for client `x`: (`FindClientNode`, routing decision) per node `0 … nn-1`. -/
-def view (P : Params) (nn : Nat) (st : St) (x : Nat) : List (Look × Route) :=
-  (List.range nn).map (fun j => (findClientNode P st.now st.store x, route P st j x))
+/-- What every node sees for client `x`: (`FindClientNode`, routing decision, runtime state) per node `0 … nn-1`. -/
+def view (P : Params) (nn : Nat) (st : St) (x : Nat) : List (Look × Route × Option (Nat × Conn)) :=
+  (List.range nn).map (fun j => (findClientNode P st.now st.store x, route P st j x, rsGet st.now st.rstore x))
 
 /-- Per event: did the entry point succeed, and what every node sees for every watched client afterwards. -/
-abbrev Obs := List (Bool × List (Nat × List (Look × Route)))
+abbrev Obs := List (Bool × List (Nat × List (Look × Route × Option (Nat × Conn))))
 
-def observe (P : Params) (nn : Nat) (clients : List Nat) (st : St) : List (Nat × List (Look × Route)) :=
+def observe (P : Params) (nn : Nat) (clients : List Nat) (st : St) : List (Nat × List (Look × Route × Option (Nat × Conn))) :=
   clients.map (fun x => (x, view P nn st x))
 
 /-- Run a history; one observation after every event. -/
